@@ -332,6 +332,7 @@ class FuncContract:
         self.assume_terminates = None
         self.callsites = []
         self.alias_recv = None
+        self.recgroup = None
 
     def all_text(self):
         parts = [self.header]
@@ -359,7 +360,7 @@ class LemmaDef:
 
 
 FUNC_CLAUSES = ('requires', 'ensures', 'assigns', 'nopanic', 'inline', 'trusted', 'pure', 'decreases',
-                'loop', 'invariant', 'use', 'tags', 'modifies', 'opaque', 'induction', 'trigger', 'terminates', 'callsite')
+                'loop', 'invariant', 'use', 'tags', 'modifies', 'opaque', 'induction', 'trigger', 'terminates', 'callsite', 'recgroup')
 
 
 def strip_comment(s):
@@ -519,6 +520,8 @@ class ContractSet:
                 if not m2:
                     raise SpecError('bad callsite clause %r' % rest)
                 target.callsites.append((m2.group(1), Clause(tags, parse_expr(m2.group(2)), m2.group(2))))
+            elif kw == 'recgroup':
+                target.recgroup = rest.strip()
             elif kw == 'terminates':
                 # `terminates assumed <reason>`: recursion without a checkable measure; recorded as an assumption
                 target.assume_terminates = rest
